@@ -177,6 +177,7 @@ Theorem tt_error_sigma_R X rank cores :
 Proof.
   unfold tt_full_R, tensor_train, tt_tail_list.
   destruct (validate_tt_rank (ndim X) rank) as [rk|]; [|discriminate]. cbn [rbind]. intros H Hrun.
+  destruct (ndim X <=? 1); [discriminate|].
   rewrite tt_err2_err2. exact (chain_loop_error_sigma_R _ _ _ _ _ _ _ H Hrun).
 Qed.
 
